@@ -422,6 +422,11 @@ def gen_store_case(rng, tier):
                 op['filter'] = rng.choice(['any', 'r', 'g', 'b', 'r', 'none'])
             ops.append(op)
         procs.append({'id': 'u%d' % p, 'ops': ops})
+    if kind == 'Store' and rng.random() < 0.3:
+        # None is a legal item (e.g. an end-of-stream marker): exactly one, so that items stay unique
+        cands = [op for p in procs for op in p['ops'] if op.get('op') == 'put']
+        if cands:
+            rng.choice(cands)['item'] = None
     if kind == 'PriorityStore':
         # one store holds either PriorityItems or bare tuples, not both (they do not compare)
         pi = rng.random() < 0.5
